@@ -1,6 +1,6 @@
 (** C03 — braided fact state equals the reference braid. *)
 From Aranya Require Import base.Tactics model.Dag model.Braid
-  proofs.BraidDag proofs.BraidRefine proofs.BraidMain gen.GenBraid proofs.BraidPins.
+  proofs.BraidDag proofs.BraidRefine proofs.BraidMain gen.GenBraid proofs.BraidPins proofs.BraidFast.
 
 Theorem braid_refines_spec : braid_refines_spec_stmt.
 Proof. exact braid_refines_spec_proof. Qed.
@@ -45,3 +45,16 @@ Check priority_order_generated :
   /\ length priority_variants = 4
   /\ forall p, nth_error priority_variants (N.to_nat (fst (prio_rank p))) = Some (prio_name p).
 Print Assumptions priority_order_generated.
+
+(** The function the correspondence run evaluates (tabulated max_cut / jump) is the model. *)
+Theorem braid_fast_eq : braid_fast_eq_stmt.
+Proof. exact braid_fast_eq_proof. Qed.
+Check braid_fast_eq : forall (g : graph) (hs : list N), braid_fast g hs = braid_L1 g hs.
+Print Assumptions braid_fast_eq.
+
+Theorem braid_state_fast_eq : braid_state_fast_eq_stmt.
+Proof. exact braid_state_fast_eq_proof. Qed.
+Check braid_state_fast_eq :
+  forall facts (eval : cmd -> facts -> outcome facts) empty g hs,
+    braid_state_with facts eval empty braid_fast g hs = braid_state facts eval empty g hs.
+Print Assumptions braid_state_fast_eq.
